@@ -1,7 +1,7 @@
 (** C16 — property theorems only.  Each is closed by [exact] of a lemma in Proofs*.v and followed
     by [Print Assumptions]. *)
 From V Require Import Base.Util Gql.Ast Writer.Wop C16.Model C16.Spec
-  C16.ProofsTemplate C16.ProofsString C16.ProofsStrip C16.ProofsDoc C16.ProofsReindent C16.Proofs.
+  C16.ProofsTemplate C16.ProofsString C16.ProofsStrip C16.ProofsDoc C16.ProofsReindent C16.ProofsGlue C16.Proofs.
 Local Open Scope N_scope.
 
 (** the template literal JsStringWriter writes evaluates to a line feed followed by exactly what
@@ -40,6 +40,21 @@ Theorem C16_server_module_value : forall model_plugin d,
   = Some (LF :: just_run (print_tsdoc (spec_server_schema model_plugin d))).
 Proof. exact server_module_value. Qed.
 Print Assumptions C16_server_module_value.
+
+(** separators suffice, for every document (no guard): at no boundary between two writes of the
+    printer does a character that can continue a name or a number (or a string delimiter) meet
+    another one -- the only places where two tokens could be glued *)
+Theorem C16_print_never_glues_tsdoc : forall d, ProofsGlue.G (print_tsdoc d) = true.
+Proof. exact G_print_tsdoc. Qed.
+Print Assumptions C16_print_never_glues_tsdoc.
+
+Theorem C16_print_never_glues_tsdoc_ext : forall d, ProofsGlue.G (print_tsdoc_ext d) = true.
+Proof. exact G_print_tsdoc_ext. Qed.
+Print Assumptions C16_print_never_glues_tsdoc_ext.
+
+Theorem C16_print_never_glues_opdoc : forall d, ProofsGlue.G (print_opdoc d) = true.
+Proof. exact G_print_opdoc. Qed.
+Print Assumptions C16_print_never_glues_opdoc.
 
 (** the literal print_string writes, followed by anything that is not a quote, lexes as one
     StringValue whose value (nitrogql's reading) is the string *)
